@@ -50,6 +50,20 @@ PREFIXES = [("mygateway1-out", "mygateway1-in"), ("a", "b"), ("a/b", "c/d"), ("a
             ("", "only-out"), ("only-in", ""), ("", "")]
 
 
+SPIN = {"max": 0}  # how often the code under test iterated a LOST connection again in the last fake-client scenario
+
+
+def judge_spin(ctx, case: dict) -> bool:
+    """A receive loop may look at a lost connection again once or twice; hundreds of times is a spin that floods the inbox
+    with copies of one broker error (and burns a CPU on the real client)."""
+    if SPIN["max"] > 100:
+        ctx.violation("receive-task-spins", f"after one broker error the receive task iterated the lost connection {SPIN['max']} "
+                                            f"more times (every round queues another error for read())", case)
+        SPIN["max"] = 0
+        return True
+    return False
+
+
 def hooked_transport(in_prefix: str, out_prefix: str):
     from aiomysensors.transport.mqtt import MQTTTransport
 
@@ -281,6 +295,7 @@ def client_burst_case(ctx, n: int) -> None:
             ctx.skip("fake-client", "no aiomqtt client seam")
             return
         result, _loop = run_virtual(scenario)
+        SPIN["max"] = max([c.raises_after_loss for c in FakeClient.instances] or [0])
     ctx.case(("client-burst", n), sample=case)
     ctx.clause("backlog-delivered")
     if isinstance(result, LogicalDeadlock):
@@ -398,6 +413,8 @@ def client_script_case(ctx, script: list, prefixes: tuple[str, str] = ("in", "ou
                     expected.append(("error", "undecodable"))
             elif kind == "err":
                 client.deliver_error(MqttError("broker went away"))
+                for _ in range(150):  # loop rounds for whatever the receive task does with a lost connection
+                    await asyncio.sleep(0)
                 if not dead:
                     expected.append(("error", "broker"))
                     dead = True
@@ -436,6 +453,12 @@ def client_script_case(ctx, script: list, prefixes: tuple[str, str] = ("in", "ou
         result, loop = run_virtual(scenario)
     ctx.case(("client", tuple(map(repr, script)), prefixes), nontrivial=len(log["expected"]) >= 2, sample=case)
     ctx.clause("client-script-judged")
+    if judge_spin(ctx, case):
+        return
+    if type(result).__name__ == "SpinDetected":
+        ctx.violation("receive-task-spins", f"script {case['script']}: after a broker error the receive task keeps iterating the "
+                                            f"lost connection (2 000 further errors and counting)", case)
+        return
     if isinstance(result, BaseException) and not isinstance(result, LogicalDeadlock):
         from ..harness import scenario_exception
 
@@ -491,6 +514,7 @@ def client_publish_case(ctx, prefixes: tuple[str, str], lines: list[str]) -> Non
             ctx.skip("fake-client", "no aiomqtt client seam in aiomysensors.transport.mqtt")
             return
         result, _loop = run_virtual(scenario)
+        SPIN["max"] = max([c.raises_after_loss for c in FakeClient.instances] or [0])
     ctx.case(("client-publish", prefixes, tuple(lines)), sample=case)
     ctx.clause("client-publish-arguments")
     if isinstance(result, BaseException) and not isinstance(result, LogicalDeadlock):
@@ -576,6 +600,7 @@ def concurrent_publish_case(ctx, case: dict) -> None:
             ctx.skip("fake-client", "no aiomqtt client seam")
             return
         result, _loop = run_virtual(scenario)
+        SPIN["max"] = max([c.raises_after_loss for c in FakeClient.instances] or [0])
     ctx.case(("concurrent-publish", case["writers"], tuple(case["cancel"]), case["later"], case.get("waves", 1),
               case.get("all_acked", False)), sample=case if case["writers"] < 10 else {**case, "cancel": f"{len(case['cancel'])} writers"})
     ctx.clause("concurrent-publish")
@@ -630,6 +655,8 @@ def read_write_mix_case(ctx, script: list) -> None:
                     log["expected"].append(("error", "undecodable"))
             elif op == "err":
                 client.deliver_error(MqttError("broker went away"))
+                for _ in range(150):  # loop rounds for whatever the receive task does with a lost connection
+                    await asyncio.sleep(0)
                 if not dead:
                     log["expected"].append(("error", "broker"))
                 dead = True
@@ -677,8 +704,11 @@ def read_write_mix_case(ctx, script: list) -> None:
         if not seam:
             return
         result, _loop = run_virtual(scenario)
+        SPIN["max"] = max([c.raises_after_loss for c in FakeClient.instances] or [0])
     ctx.case(("read-write-mix", tuple(script)), sample=case)
     ctx.clause("read-write-mix")
+    if judge_spin(ctx, case):
+        return
     if isinstance(result, LogicalDeadlock):
         ctx.violation("mqtt-deaf", f"script {script}: a read for something that HAS arrived can never complete", case)
         return
@@ -700,6 +730,63 @@ def read_write_mix_case(ctx, script: list) -> None:
             break
 
 
+def hung_broker_disconnect_case(ctx, delay: float) -> None:
+    """The broker does not answer the DISCONNECT: the aiomqtt client's own exit takes `delay` virtual seconds and then gives
+    up with ITS error (an MqttError).  disconnect() completes without raising, and the object connects again."""
+    from aiomqtt import MqttError
+
+    from aiomysensors.transport.mqtt import MQTTClient
+
+    case = {"kind": "hung-broker-disconnect", "delay": delay}
+    log: dict = {}
+
+    async def scenario() -> None:
+        transport = MQTTClient("broker.invalid", 1883, in_prefix="in", out_prefix="out")
+        await transport.connect()
+        FakeClient.exit_delay = delay
+        FakeClient.exit_timeout_error = MqttError("Operation timed out")
+        try:
+            await transport.disconnect()
+            log["disconnect"] = "ok"
+        except Exception as exc:  # noqa: BLE001
+            log["disconnect"] = exc
+        FakeClient.exit_delay = 0.0
+        FakeClient.exit_timeout_error = None
+        try:
+            await transport.connect()
+            FakeClient.instances[-1].deliver("in/2/0/1/0/2", b"after")
+            log["after"] = await transport.read()
+            await transport.disconnect()
+        except Exception as exc:  # noqa: BLE001
+            log["again"] = exc
+
+    with install() as seam:
+        if not seam:
+            return
+        result, _loop = run_virtual(scenario)
+        SPIN["max"] = max([c.raises_after_loss for c in FakeClient.instances] or [0])
+    ctx.case(("hung-broker-disconnect", delay), sample=case)
+    ctx.clause("disconnect-from-a-hung-broker")
+    if isinstance(result, LogicalDeadlock):
+        ctx.violation("mqtt-deaf", f"after a disconnect that took {delay} s the transport never reads again", case)
+        return
+    if isinstance(result, BaseException):
+        from ..harness import scenario_exception
+
+        scenario_exception(ctx, result, case, "hung-broker-disconnect")
+        return
+    if isinstance(log.get("disconnect"), BaseException):
+        exc = log["disconnect"]
+        ctx.violation("disconnect-raises", f"the broker did not answer the DISCONNECT for {delay} virtual seconds (the client's own "
+                                           f"exit then fails with an MqttError): disconnect raised {type(exc).__name__}: {exc!s:.60}", case)
+    if isinstance(log.get("again"), BaseException):
+        exc = log["again"]
+        ctx.violation("reconnect-failed", f"after a disconnect from a hung broker ({delay} s) connecting again raised "
+                                          f"{type(exc).__name__}: {exc!s:.80}", case)
+    elif (log.get("after") or "").rstrip("\n") != "2;0;1;0;2;after":
+        ctx.violation("read-back-differs", f"after reconnecting: read {log.get('after')!r}", case)
+
+
 def reconnect_after_error_case(ctx, with_disconnect: bool, pending_read: bool) -> None:
     """The broker connection breaks (receive error), the application connects again - with or without calling
     disconnect() first.  connect() may refuse loudly (any exception); if it returns, the transport must hear the broker
@@ -718,6 +805,8 @@ def reconnect_after_error_case(ctx, with_disconnect: bool, pending_read: bool) -
         first.deliver("in/1/0/1/0/1", b"before")
         log["before"] = await transport.read()
         first.deliver_error(MqttError("broker went away"))
+        for _ in range(150):
+            await asyncio.sleep(0)
         try:
             await transport.read()
             log["error_read"] = "returned"
@@ -744,8 +833,11 @@ def reconnect_after_error_case(ctx, with_disconnect: bool, pending_read: bool) -
         if not seam:
             return
         result, _loop = run_virtual(scenario)
+        SPIN["max"] = max([c.raises_after_loss for c in FakeClient.instances] or [0])
     ctx.case(("reconnect-after-error", with_disconnect, pending_read), sample=case)
     ctx.clause("reconnect-after-broker-error")
+    if judge_spin(ctx, case):
+        return
     if isinstance(result, LogicalDeadlock):
         if log.get("waiting"):
             ctx.violation("mqtt-deaf", f"after a broker error connect() {'(after disconnect) ' if with_disconnect else ''}returned "
@@ -816,6 +908,7 @@ def disconnect_during_publish_case(ctx, variant: str, acked: int) -> None:
         if not seam:
             return
         result, _loop = run_virtual(scenario)
+        SPIN["max"] = max([c.raises_after_loss for c in FakeClient.instances] or [0])
     ctx.case(("disconnect-during-publish", variant, acked), sample=case)
     ctx.clause("disconnect-during-publish")
     if isinstance(result, LogicalDeadlock):
@@ -979,6 +1072,8 @@ def run_case(ctx, case: dict) -> None:
         client_script_case(ctx, script, tuple(case["prefixes"]))
     elif kind == "concurrent-publish":
         concurrent_publish_case(ctx, case)
+    elif kind == "hung-broker-disconnect":
+        hung_broker_disconnect_case(ctx, case["delay"])
     elif kind == "read-write-mix":
         read_write_mix_case(ctx, case["script"])
     elif kind == "reconnect-after-error":
@@ -1073,6 +1168,9 @@ def run(ctx) -> None:
                 count += 1
                 if ctx.mine(count):
                     read_write_mix_case(ctx, [*script, "read", "write", "read", "read"])
+        for i, delay in enumerate((1.0, 5.0, 9.0, 10.0, 11.0, 30.0, 60.0, 301.0)):
+            if ctx.mine(i):
+                hung_broker_disconnect_case(ctx, delay)
         for i, (with_disconnect, pending) in enumerate(((False, False), (True, False))):
             if ctx.mine(i):
                 reconnect_after_error_case(ctx, with_disconnect, pending)
